@@ -12,7 +12,7 @@ cp -r $SRC $W/verif
 (cd $W/verif && VERIF_REPO=$W/repo timeout 2400 ./check $P $T > $W/log 2>&1); rc=$?
 kind=$(grep -c "no-failing-input-found" $W/log)
 nv=$(grep -c "^VIOLATION" $W/log)
-case $d in *n|*n2|*n3) want=0;; *) want=1;; esac
+case $d in *n|*n2|*n3|*n4) want=0;; *) want=1;; esac
 [ $rc -eq $want ] && verdict=as-expected || verdict=UNEXPECTED
 echo "$d check=$P rc=$rc (want $want) violations=$nv without_input=$kind $verdict"
 mkdir -p /tmp/mxlogs; cp $W/log /tmp/mxlogs/$d-$P-${VERIF_SEED:-0}.log
